@@ -60,7 +60,7 @@ def case_for(draw, cmd):
     if name == "persistentreserveout":
         return {"a": draw(paramgen.prout_args()), "resp": None}
     if name.startswith("extendedcopy"):
-        return {"a": draw(paramgen.xcopy_args(name.endswith("5"), seg_codes=(0x00, 0x02, 0x0B, 0x0D))), "resp": None}
+        return {"a": draw(paramgen.xcopy_args(name.endswith("5"))), "resp": None}
     if name.startswith("modeselect"):
         a = {"data": draw(paramgen.mode_data(name.endswith("10")))}
         for k in ("pf", "sp"):
